@@ -14,11 +14,15 @@ LowerSeq(x) == [i \in 1..Len(x) |-> Lower(x[i])]
 CaseClash(v, keys) == \E i \in 1..Len(keys) : keys[i] # v /\ LowerSeq(keys[i]) = LowerSeq(v)
 Ascending(keys) == \A i \in 1..(Len(keys) - 1) : keys[i] <= keys[i + 1]
 Hits(v, keys) == {i \in 1..Len(keys) : keys[i] = v}
+\* text keys: equal when they differ in case only (Excel's equality of texts)
+HitsT(v, keys) == {i \in 1..Len(keys) : LowerSeq(keys[i]) = LowerSeq(v)}
 MinOf(S) == CHOOSE x \in S : \A y \in S : x <= y
 MaxOf(S) == CHOOSE x \in S : \A y \in S : x >= y
 \* exact matching: first (or, searching from the end, last) row whose key equals v
 ExactFirst(v, keys) == IF Hits(v, keys) = {} THEN NA ELSE MinOf(Hits(v, keys))
 ExactLast(v, keys) == IF Hits(v, keys) = {} THEN NA ELSE MaxOf(Hits(v, keys))
+ExactFirstT(v, keys) == IF HitsT(v, keys) = {} THEN NA ELSE MinOf(HitsT(v, keys))
+ExactLastT(v, keys) == IF HitsT(v, keys) = {} THEN NA ELSE MaxOf(HitsT(v, keys))
 \* approximate matching on ascending integer keys: last row whose key is not greater than v
 ApproxRow(v, keys) == IF ~Ascending(keys) THEN OOS
                       ELSE LET S == {i \in 1..Len(keys) : keys[i] <= v} IN IF S = {} THEN NA ELSE MaxOf(S)
